@@ -11,6 +11,7 @@ import (
 	"os"
 	"os/exec"
 	"path/filepath"
+	"regexp"
 	"sort"
 	"strings"
 	"sync"
@@ -33,9 +34,10 @@ type Failure struct {
 }
 
 type boundedResult struct {
-	Fails []Failure
-	Runs  int
-	Err   string
+	Fails  []Failure
+	Runs   int
+	Err    string
+	Labels []string // labels of the ensures clauses that were executable
 }
 
 var harnessMu sync.Mutex
@@ -79,6 +81,12 @@ func hoistOld(cl *Clause, qual types.Qualifier) (text string, olds []string, old
 				olds = append(olds, exprString(fset, e.Args[0]))
 				oldTypes = append(oldTypes, types.TypeString(info.TypeOf(e.Args[0]), qual))
 				return ast.NewIdent(name)
+			}
+			if id, isId := e.Fun.(*ast.Ident); isId && id.Name == "implies" && len(e.Args) == 2 {
+				// lazy in the executable form: the consequent may dereference what the antecedent guards
+				return &ast.ParenExpr{X: &ast.BinaryExpr{Op: token.LOR,
+					X: &ast.UnaryExpr{Op: token.NOT, X: &ast.ParenExpr{X: rewriteExpr(e.Args[0], bound)}},
+					Y: &ast.ParenExpr{X: rewriteExpr(e.Args[1], bound)}}}
 			}
 			ne := *e
 			ne.Args = nil
@@ -202,7 +210,10 @@ func (w *World) genHarness(pkg string, keys []string) (string, []string, error) 
 		if con == nil || fn == nil || fn.Parent() != nil {
 			continue
 		}
-		vars := collectVars(fn)
+		if w.harnessLabels != nil {
+			delete(w.harnessLabels, key)
+		}
+		vars := collectVarsCon(fn, con)
 		// receiver / first pointer param must have a generator; other params must have a domain
 		sig := fn.Signature
 		recvIdx := -1
@@ -217,6 +228,9 @@ func (w *World) genHarness(pkg string, keys []string) (string, []string, error) 
 				if nt, isNamed := pt.Elem().(*types.Named); isNamed {
 					recvIdx = i
 					genName = "xvcGen_" + nt.Obj().Name()
+					if nt.Obj().Pkg() != nil && nt.Obj().Pkg().Name() != pkg {
+						genName = "xvcGen_" + nt.Obj().Pkg().Name() + "_" + nt.Obj().Name()
+					}
 					continue
 				}
 			}
@@ -226,6 +240,14 @@ func (w *World) genHarness(pkg string, keys []string) (string, []string, error) 
 					d = "xvcDom_" + nt.Obj().Name()
 					loops = append(loops, fmt.Sprintf("for _, %s := range %s {", n, d))
 					continue
+				}
+				if _, isFn := t.Underlying().(*types.Signature); !isFn {
+					// other types: the state file may offer a domain named after the type (xvcDom_ast_Expression)
+					dn := "xvcDom_" + sanitize(ts)
+					if bytes.Contains(w.harnessStates(pkg), []byte("var "+dn+" ")) {
+						loops = append(loops, fmt.Sprintf("for _, %s := range %s {", n, dn))
+						continue
+					}
 				}
 				okFn = false
 				break
@@ -247,6 +269,9 @@ func (w *World) genHarness(pkg string, keys []string) (string, []string, error) 
 		}
 		var enss []ens
 		for i, cl := range con.Ensures {
+			if usesTrace(cl) || usesGhost(cl) || cl.Def {
+				continue // clauses over ghost state have no executable meaning
+			}
 			txt, olds, ots, ok := hoistOld(cl, qual)
 			if !ok {
 				continue
@@ -256,9 +281,13 @@ func (w *World) genHarness(pkg string, keys []string) (string, []string, error) 
 				lab = fmt.Sprintf("%d", i+1)
 			}
 			enss = append(enss, ens{lab, txt, olds, ots})
+			if w.harnessLabels == nil {
+				w.harnessLabels = map[string][]string{}
+			}
+			w.harnessLabels[key] = append(w.harnessLabels[key], lab)
 		}
 		fname := "xvcRun_" + sanitize(key)
-		fmt.Fprintf(&body, "func %s(report func(kind, clause, state, args, detail string)) int {\n\tn := 0\n", fname)
+		fmt.Fprintf(&body, "func %s(report func(kind, clause, state, args, detail string)) int {\n\txvcN := 0\n", fname)
 		for _, l := range loops {
 			body.WriteString("\t" + l + "\n")
 		}
@@ -279,6 +308,9 @@ func (w *World) genHarness(pkg string, keys []string) (string, []string, error) 
 			}
 			fmt.Fprintf(b, "\t\targs := fmt.Sprintf(%q%s)\n", strings.Join(argDesc, " "), prefixComma(argVals))
 			for _, cl := range con.Requires {
+				if usesTrace(cl) || usesGhost(cl) {
+					continue
+				}
 				fmt.Fprintf(b, "\t\t{\n\t\t\tok := false\n\t\t\txvcCatch(func() { ok = %s(%s) })\n\t\t\tif !ok {\n\t\t\t\treturn\n\t\t\t}\n\t\t}\n", cl.GenName, strings.Join(callArgs, ", "))
 			}
 			if recvIdx >= 0 {
@@ -309,7 +341,7 @@ func (w *World) genHarness(pkg string, keys []string) (string, []string, error) 
 			if len(resNames) > 0 {
 				asg = strings.Join(resNames, ", ") + " = "
 			}
-			fmt.Fprintf(b, "\t\tn++\n\t\tif p := xvcCatch(func() { %s%s }); p != \"\" {\n\t\t\treport(\"panic\", \"\", state, args, p)\n\t\t\treturn\n\t\t}\n", asg, call)
+			fmt.Fprintf(b, "\t\txvcN++\n\t\tif p := xvcCatch(func() { %s%s }); p != \"\" {\n\t\t\treport(\"panic\", \"\", state, args, p)\n\t\t\treturn\n\t\t}\n", asg, call)
 			for _, r := range resNames {
 				fmt.Fprintf(b, "\t\t_ = %s\n", r)
 			}
@@ -336,8 +368,26 @@ func (w *World) genHarness(pkg string, keys []string) (string, []string, error) 
 		for range loops {
 			body.WriteString("\t}\n")
 		}
-		body.WriteString("\treturn n\n}\n\n")
+		body.WriteString("\treturn xvcN\n}\n\n")
 		done = append(done, key)
+	}
+	// packages imported by the contracts file and mentioned in the clause texts
+	if cp := w.Pkgs[pkg]; cp != nil {
+		for _, f := range cp.Syntax {
+			if filepath.Base(cp.Fset.Position(f.Pos()).Filename) != contractFile {
+				continue
+			}
+			for _, im := range f.Imports {
+				path := strings.Trim(im.Path.Value, "\"")
+				name := shortPkg(path)
+				if im.Name != nil {
+					name = im.Name.Name
+				}
+				if regexp.MustCompile(`\b` + regexp.QuoteMeta(name) + `\.`).MatchString(reStrLit.ReplaceAllString(body.String(), `""`)) {
+					imports[path] = name
+				}
+			}
+		}
 	}
 	var hdr strings.Builder
 	hdr.WriteString("//go:build verif\n\npackage " + pkg + "\n\nimport (\n")
@@ -431,6 +481,9 @@ func (w *World) boundedRun(pkg string, keys []string, target string) *boundedRes
 	if !sawRuns {
 		res.Err = "harness did not run: " + firstLines(string(out), 12)
 	}
+	for _, k := range keys {
+		res.Labels = append(res.Labels, w.harnessLabels[k]...)
+	}
 	return res
 }
 
@@ -464,4 +517,35 @@ func tryReplay(w *World, fn, ob string, o *ObResult, rep map[string]interface{})
 		}
 	}
 	return false
+}
+
+var ghostBuiltins = map[string]bool{"fold": true, "foldH": true, "fresh": true, "seen": true, "capturedVar": true, "fnIs": true, "atHead": true, "atEntry": true, "built": true}
+
+// usesGhost: the clause mentions ghost state that the executable form cannot evaluate.
+func usesGhost(cl *Clause) bool {
+	if cl.Fn == nil {
+		return false
+	}
+	found := false
+	ast.Inspect(cl.Fn.Decl.Body, func(n ast.Node) bool {
+		if ce, ok := n.(*ast.CallExpr); ok {
+			switch f := ce.Fun.(type) {
+			case *ast.Ident:
+				if ghostBuiltins[f.Name] {
+					found = true
+				}
+			case *ast.IndexExpr:
+				if id, ok := f.X.(*ast.Ident); ok && ghostBuiltins[id.Name] {
+					found = true
+				}
+			}
+		}
+		return !found
+	})
+	return found
+}
+
+func (w *World) harnessStates(pkg string) []byte {
+	b, _ := os.ReadFile(filepath.Join(verifDir, "harness", pkg+"_states.go.txt"))
+	return b
 }
